@@ -18,7 +18,7 @@ NOT_YET = {}
 PROPS['C07'] = A(level='model_checking',
     harnesses=[A(src='harness/c07_interval.cpp', san='asan')],
     budget=A(quick=150, thorough=1500),
-    bounds=A(quick='configs (endpoint universe {0..U}, copies c of every interval, <=M stored, f=1 removed node object re-created / f=0 re-used stale): U2c2M5f1 U3c1M7f1 U4c1M4f1 U1c3M6f1 U2c1M5f0 U1c2M4f0; insert/remove histories of any length (fixpoint); every query -1<=lb<=ub<=U+1 and every 1-arg query in every distinct state; the same with an endpoint type whose move empties its source (U3c1M4)',
+    bounds=A(quick='configs (endpoint universe {0..U}, copies c of every interval, <=M stored, f=1 removed node object re-created / f=0 re-used stale): U2c2M5f1 U3c1M7f1 U4c1M4f1 U1c3M6f1 U2c1M5f0 U1c2M4f0; insert/remove histories of any length (fixpoint); every query -1<=lb<=ub<=U+1 and every 1-arg query in every distinct state; the same with an endpoint type whose move empties its source (U3c1M4); the U3c1 trees also over negative (-20) and mixed-sign (-2) endpoint universes',
              thorough='U2c2M6f1 U3c1M7f1 U3c2M5f1 U4c1M6f1 U5c1M4f1 U1c3M7f1 U2c1M6f0 U1c3M5f0 U1c2M4f0 U3c1M2f0; movable endpoint U3c1M5; fixpoint; all queries in every distinct state'),
     assumptions=TRUST)
 PROPS['C08'] = A(level='model_checking',
@@ -43,7 +43,7 @@ PROPS['C14'] = A(level='model_checking', harnesses=HM_H, budget=A(quick=150, tho
 
 HOLD_H = [A(src='harness/c17_holders.cpp', san='asan')]
 PROPS['C17'] = A(level='model_checking', harnesses=HOLD_H, budget=A(quick=150, thorough=900),
-    bounds=A(quick='two slots each of optional<int|Tracked|MoveOnly|CopyOnly|Counted (an element with an observable use count)>, expected<Err,Tracked|int>, variant<Tracked,TrackedB,int>, manual_box<Tracked>; every constructor/assignment/emplace/unwrap/map/apply in every (destination,source) state combination, histories of any length (fixpoint); tuple shapes vs std::tuple; constructor selection of emplace/initialize for 8 argument shapes; expected<E,void>, FRG_TRY, eternal; value-initialisation of scalar/aggregate payloads on re-initialisation',
+    bounds=A(quick='two slots each of optional<int|Tracked|MoveOnly|CopyOnly|Counted (an element with an observable use count)>, expected<Err,Tracked|int>, variant<Tracked,TrackedB,int>, manual_box<Tracked>; every constructor/assignment/emplace/unwrap/map/apply in every (destination,source) state combination, histories of any length (fixpoint); tuple shapes vs std::tuple; constructor selection of emplace/initialize for 8 argument shapes; expected<E,void>, FRG_TRY, eternal; value-initialisation of scalar/aggregate payloads on re-initialisation; converting assignment from the first member of the held object',
              thorough='same (the spaces are closed completely already)'),
     assumptions=TRUST)
 
@@ -64,7 +64,7 @@ PROPS['C16']['harnesses'] = PROPS['C16']['harnesses'] + RX_H
 _MT_H = [A(src='harness/c05_slab_mt.cpp', san='asan', sched=True), A(src='harness/c05_slab_mt.cpp', san='tsan', sched=True)]
 SLAB_H = [A(src='harness/c01_slab.cpp', san='asan', opt='-O2', tag='-p%d' % i, flags=['-DSLAB_PART=%d' % i]) for i in range(4)]
 HUGE_H = [A(src='harness/c03_slab_huge.cpp', san='asan', opt='-O2')]
-SLAB_B = A(quick='policy configs: tiny (page 256, slab=sb 4 KiB, 8 classes; aligned map / one-argument map with bases at 3 offsets / no poison hooks), split (slab 2 KiB < sb 4 KiB, aligned and one-argument map), odd (slab 7 pages, sb 8 pages, largest class 2 pages), defaults (4 KiB/256 KiB/13 classes, both map flavours). (a) alloc/free/deallocate/realloc/realloc(null) histories to FIXPOINT (any length) over small size alphabets with <=2..5 live blocks; (b) all histories to depth 5 (4 odd, 3 defaults) over the full 5-7 size alphabets with <=3..4 live blocks; (c) size sweep: every request 0..largest class+2 pages and every size within +-2 of a page multiple up to 3 superblocks+1 page from 3 base states, every realloc pair over the class/page boundaries; (c2) churn: per size class x request at both ends of the class (and 0) x {free, deallocate(p,n), realloc(p,0)}: 2*blocks-per-slab+3 allocate/release cycles with one live block (tiny configs all classes, default config the 8-byte class: 65513 cycles); 16 KiB-page configurations in the sweeps; every swept realloc followed by a second, moving realloc and, after an in-place shrink, a regrow to the page-rounded size',
+SLAB_B = A(quick='policy configs: tiny (page 256, slab=sb 4 KiB, 8 classes; aligned map / one-argument map with bases at 3 offsets / no poison hooks), split (slab 2 KiB < sb 4 KiB, aligned and one-argument map), odd (slab 7 pages, sb 8 pages, largest class 2 pages), defaults (4 KiB/256 KiB/13 classes, both map flavours). (a) alloc/free/deallocate/realloc/realloc(null) histories to FIXPOINT (any length) over small size alphabets with <=2..5 live blocks; (b) all histories to depth 5 (4 odd, 3 defaults) over the full 5-7 size alphabets with <=3..4 live blocks; (c) size sweep: every request 0..largest class+2 pages and every size within +-2 of a page multiple up to 3 superblocks+1 page from 3 base states, every realloc pair over the class/page boundaries; (c2) churn: per size class x request at both ends of the class (and 0) x {free, deallocate(p,n), realloc(p,0)}: 2*blocks-per-slab+3 allocate/release cycles with one live block (tiny configs all classes, default config the 8-byte class: 65513 cycles); 16 KiB-page configurations in the sweeps; every swept realloc followed by a second, moving realloc and, after an in-place shrink, a regrow to the page-rounded size; (c3) whole slabs: per size class one block more than a slab holds, all live and written, every other freed, refilled, all freed (tiny configs all classes; default config classes with <= 1100 blocks per slab, thorough 5000)',
            thorough='same with more fixpoint alphabets at 3 live blocks, depth 7 (6 odd, 5 defaults), sweeps from all base states')
 SLAB_HUGE = A(quick='; (e) requests around 2^31, 2^32, 1.5*2^32 and 2^33 bytes (13 offsets -8192..+8192 each, plus 5 GiB+12345): allocate / second block / free, realloc from 24, 48, 40000 and 300000 patterned bytes up and down again, realloc(null), sized deallocate, x {two-argument map, one-argument map} x {with, without poison hooks}, over an address-space-only policy (212 cases)', thorough='; (e) the same plus 75 sizes around every multiple of 2^31 up to 2^35')
 for pid, extra in (('C01', ''), ('C02', ''), ('C03', '')):
@@ -107,19 +107,19 @@ PROPS['C20'] = A(level='exploration', engine='enumerate', harnesses=[A(src='harn
 def SCHED(src, **kw):
     return [A(src=src, san='asan', sched=True, **kw), A(src=src, san='tsan', sched=True, **kw)]
 PROPS['C12'] = A(level='model_checking', engine='sched', harnesses=SCHED('harness/c12_spin.cpp') + [A(src='harness/c12_guards.cpp', san='asan')], budget=A(quick=150, thorough=1500),
-    bounds=A(quick='ticket_spinlock and simple_spinlock, every __atomic builtin and spin hint a scheduling point: 2 threads x 1 round: ALL interleavings; 2 threads x 2 rounds: ALL interleavings (simple) / preemption bound 5 (ticket); the ticket lock also started at the wrap-around of its 32-bit counters (2x1 all, 2x2 bound 3); 3 threads x 1 round: bound 2; every __atomic builtin the header could use (load, store, exchange, fetch_*, compare_exchange, test_and_set, clear) is hooked; each explored twice (ASan+vector clocks, and ThreadSanitizer). Guards: unique_lock/shared_lock/QS lock_guard operation histories to fixpoint',
+    bounds=A(quick='ticket_spinlock and simple_spinlock, every __atomic builtin and spin hint a scheduling point: 2 threads x 1 round: ALL interleavings; 2 threads x 2 rounds: ALL interleavings (simple) / preemption bound 5 (ticket); the ticket lock also started at the wrap-around of its 32-bit counters (2x1 all, 2x2 bound 3); 3 threads x 1 round: bound 2; every __atomic builtin the header could use (load, store, exchange, fetch_*, compare_exchange, test_and_set, clear) is hooked; each explored twice (ASan+vector clocks, and ThreadSanitizer). Guards: unique_lock/shared_lock/QS lock_guard operation histories to fixpoint; the three guard types also over a byte-aligned mutex type at odd addresses',
              thorough='ticket 2x2 bound 7, 3x1 bound 3, 4x1 and 3x2 bound 2'),
     technique='stateless model checking: exhaustive preemption-bounded enumeration of thread schedules of the real implementation under a serialising scheduler (CHESS style), vector-clock happens-before oracle, ThreadSanitizer over the same schedules; explicit-state BFS for the guards',
     assumptions=TRUST + ['interleaving (sequentially consistent) semantics; memory-order defects are caught as missing happens-before edges (vector clocks, TSan), not by enumerating weak-memory executions'])
 
 PROPS['C05'] = A(level='model_checking', engine='sched', harnesses=SCHED('harness/c05_slab_mt.cpp') + SLAB_H[:2], budget=A(quick=170, thorough=1700),
-    bounds=A(quick='slab_pool<tiny policy, scheduler mutex>: 8 thread scripts (2-4 threads, 1-4 pool calls each, all on shared size classes: both threads find a class empty; race for the last free object while a third frees into the slab; cross-thread free through a mailbox; realloc across classes; large frames vs. slab creation; unaligned map; full slab refill), every lock/unlock a scheduling point, all schedules with <=3 preemptions; each script explored with ASan+oracles and again under ThreadSanitizer; 3 scripts with the pool built over frg::ticket_spinlock (<=1 preemption) / frg::simple_spinlock (<=4 preemptions), every atomic builtin of the lock a scheduling point; sequential part for the clause that the policy may itself use the pool: BFS over histories in which the policy frees a live block through the pool from inside map(), with map succeeding or failing (3 configurations, depth 5 / fixpoint)',
+    bounds=A(quick='slab_pool<tiny policy, scheduler mutex>: 8 thread scripts (2-4 threads, 1-4 pool calls each, all on shared size classes: both threads find a class empty; race for the last free object while a third frees into the slab; cross-thread free through a mailbox; realloc across classes; large frames vs. slab creation; unaligned map; full slab refill), every lock/unlock a scheduling point, all schedules with <=3 preemptions; each script explored with ASan+oracles and again under ThreadSanitizer; 3 scripts with the pool built over frg::ticket_spinlock (<=1 preemption) / frg::simple_spinlock (<=4 preemptions), every atomic builtin of the lock a scheduling point; sequential part for the clause that the policy may itself use the pool: BFS over histories in which the policy frees a live block through the pool from inside map(), with map succeeding or failing (3 configurations, depth 5 / fixpoint); a pool over ticket locks whose counters stand at 0xFFFFFFFF (wrap during the script)',
              thorough='<=4 preemptions; H1 with all interleavings; three allocators; two classes'),
     technique='stateless model checking: exhaustive preemption-bounded enumeration of thread schedules of the real slab_pool under a serialising scheduler, oracles on every schedule, ThreadSanitizer over the same schedules',
     assumptions=TRUST + ['plain memory accesses are not scheduling points; data-race freedom is checked separately by ThreadSanitizer on every explored schedule', 'interleaving semantics'])
 
 PROPS['C10'] = A(level='model_checking', engine='sched', harnesses=SCHED('harness/c10_radix_mt.cpp'), budget=A(quick=170, thorough=1700),
-    bounds=A(quick='rcu_radixtree with std::atomic swapped for a scheduling-point atomic: 5 scripts of one writer (2-3 insert/erase ops covering first insert, root split, split below an inner node, second key in a leaf, erase, re-insert) and one reader (2 finds), every atomic load/store a scheduling point, all schedules with <=2 preemptions; vector-clock check that the value construction happens-before the reader; same schedules under ThreadSanitizer; plus readers probing never-inserted keys that differ from a stored key only in a skipped nibble (S10/S11) and a path without compression, 16 nodes deep (S12)',
+    bounds=A(quick='rcu_radixtree with std::atomic swapped for a scheduling-point atomic: 5 scripts of one writer (2-3 insert/erase ops covering first insert, root split, split below an inner node, second key in a leaf, erase, re-insert) and one reader (2 finds), every atomic load/store a scheduling point, all schedules with <=2 preemptions; vector-clock check that the value construction happens-before the reader; same schedules under ThreadSanitizer; plus readers probing never-inserted keys that differ from a stored key only in a skipped nibble (S10/S11) and a path without compression, 16 nodes deep (S12); two concurrent readers on keys in different leaves (S13)',
              thorough='<=3 preemptions, two readers, 5-op writer, single insert vs find with all interleavings'),
     technique='stateless model checking: exhaustive preemption-bounded enumeration of schedules at atomic-access granularity on the real rcu_radixtree, linearisation oracle on the recorded call/return history, vector-clock happens-before oracle, ThreadSanitizer over the same schedules',
     assumptions=TRUST + ['interleaving semantics; ordering defects are detected as missing happens-before edges (vector clocks, TSan)'])
